@@ -172,7 +172,7 @@ Lemma load_go_reads maxf es : forall rem res rs,
   Forall wf_entry es -> load_go maxf rem es = (res, rs) ->
   Forall (fun r => 0 <= rd_n r <= Z.min (rd_size r) (rd_rem r)) rs /\ sumZ (map rd_n rs) <= Z.max 0 rem.
 Proof.
-  induction es as [|e es IH]; intros rem res rs HF H; simpl in H.
+  induction es as [|e es IH]; intros rem res rs HF H; simpl in H; unfold entry_over_remaining, entry_over_file_limit, short_read, budget_exhausted in H.
   - inversion H; subst. simpl. split; [constructor|lia].
   - inversion HF as [|? ? (Hs0 & Hsl) HF']; subst.
     destruct (te_isdir e || te_xheader e).
@@ -200,7 +200,7 @@ Lemma load_go_accepts maxf es : forall rem fs rs,
   (filter counted es <> [] -> sumZ (map te_size (filter counted es)) < rem) /\
   (fs = [] <-> filter counted es = []).
 Proof.
-  induction es as [|e es IH]; intros rem fs rs HF H; simpl in H.
+  induction es as [|e es IH]; intros rem fs rs HF H; simpl in H; unfold entry_over_remaining, entry_over_file_limit, short_read, budget_exhausted in H.
   - inversion H; subst. simpl. repeat split; auto; try congruence.
   - inversion HF as [|? ? (Hs0 & Hsl) HF']; subst. simpl filter.
     destruct (te_isdir e || te_xheader e) eqn:Esk.
@@ -302,7 +302,7 @@ Proof. split; [repeat constructor; simpl; unfold slen; simpl; lia|vm_compute; re
 Lemma load_go_names maxf es : forall rem fs rs,
   load_go maxf rem es = (inr fs, rs) -> Forall (fun f => clean_rel (f_name f)) fs.
 Proof.
-  induction es as [|e es IH]; intros rem fs rs H; simpl in H.
+  induction es as [|e es IH]; intros rem fs rs H; simpl in H; unfold entry_over_remaining, entry_over_file_limit, short_read, budget_exhausted in H.
   - inversion H. constructor.
   - destruct (te_isdir e || te_xheader e).
     { destruct (te_rerr e); [discriminate|]. eauto. }
@@ -386,3 +386,12 @@ Lemma file_limit_any_name :
   load_archive_files 1000 5 (mkTS false [mkTE "c/Chart.yaml" 48 420 4 "name" false;
                                          mkTE "c/charts/sub-0.1.0.tgz" 48 420 6 "123456" false] false) = inl EFile.
 Proof. split; vm_compute; reflexivity. Qed.
+
+(* the operators read from archive.go against the model's predicates (by conversion: the
+   generated definitions are string literals) *)
+Lemma limit_operators (a b : Z) :
+  cmp_of op_entry_vs_remaining a b = entry_over_remaining a b /\
+  cmp_of op_entry_vs_file_limit a b = entry_over_file_limit a b /\
+  cmp_of op_short_read a b = short_read a b /\
+  cmp_of op_budget_exhausted a 0 = budget_exhausted a.
+Proof. repeat split; reflexivity. Qed.
